@@ -1,6 +1,6 @@
 """C12 — HTTP server (DESIGN §4 C12)."""
 from tbxlint.facts import extract, AnalysisBroken, MODULES
-from tbxlint import locks, q, exc, rd
+from tbxlint import locks, q, exc, rd, harden
 import glob
 
 IMPL = 'tbox::http::server::Server::Impl'
@@ -23,6 +23,11 @@ EXC_TABLE = {
         'positions are the parse cursor `pos` (0, or a found CRLF position + 2, or advanced by the checked body length — the cursor-update '
         'shapes are enforced by C12.R2) or find() results guarded against npos',
 }
+
+
+def recv_entries(prog):
+    return [prog.fn1(PARSER + '::parse')] + [prog.fn1(IMPL + '::' + n) for n in
+            ('onTcpReceived', 'onTcpSendCompleted', 'commitRespond', 'onTcpConnected', 'onTcpDisconnected', 'handle')]
 
 
 def r1(ctx, prog):
@@ -342,4 +347,6 @@ def run(ctx):
     ctx.guard(r6, ctx, prog)
     ctx.guard(r7, ctx, prog)
     ctx.guard(r8, ctx, prog)
+    ctx.guard(harden.run, ctx, prog, 'C12.R9', recv_entries(prog),
+              lambda g: g.file.startswith(MODULES + '/http/') or g.file.startswith(MODULES + '/util/'), 'HTTP receive/commit path')
     return prog
